@@ -4,11 +4,11 @@ go 1.26
 
 require (
 	github.com/bronlabs/bron-crypto v0.0.0
+	github.com/bronlabs/errs-go v0.2.2
 	github.com/fxamacker/cbor/v2 v2.9.0
 )
 
 require (
-	github.com/bronlabs/errs-go v0.2.2 // indirect
 	github.com/cronokirby/saferith v0.33.0 // indirect
 	github.com/x448/float16 v0.8.4 // indirect
 	golang.org/x/crypto v0.52.0 // indirect
